@@ -337,4 +337,24 @@ META["C03"] = {
     "assumptions": ["layout grammar bounded as listed in the rule"],
 }
 
+META["C01"] = {
+    "level": "other",
+    "level_text": "Decided as the composition of the stage contracts plus one bounded integration "
+    "contract. Proved stages on this run are listed in the evidence of C17 (method form), C19 "
+    "(aggregates), C15 (empty-metadata removal), C12 (value_async sends exactly the cleaned query) and "
+    "C13 (literal builders); the operator builders' shape `Op(parent AST, lambda)` is proved for "
+    "MetaData / As* (clone_with_new_ast). Bounded integration contract on value(): ~290 (quick) "
+    "operator chains built from Python callables (generated source), source strings and ASTs on typed "
+    "and untyped roots with optional terminal, evaluated with the reference semantics after each of "
+    "the passes id, M, A∘M, S∘M, S∘A∘M on 4 data sets and compared with the same chain run by Python "
+    "on in-memory sequences.",
+    "level_note": "Only as strong as its weakest stage: source recovery (C03), capture (C04/C05), "
+    "sugar (C06), type following (C07-C10) and the simplifier's semantic clause (C02) are bounded "
+    "only. One recorded known finding (defaulted dataclass fields).",
+    "technique": "composition of stage contracts (several discharged deductively, see C12/C13/C15/C17/C19) plus a bounded integration contract on value() against Python running the chain (labelled stand-in)",
+    "p_keys": True,
+    "explanation": "Stage contracts + bounded integration contract.",
+    "assumptions": ["chains bounded to length 3 (quick) / 4 (thorough); 4 data sets"],
+}
+
 NOT_APPLICABLE = {}
